@@ -12,6 +12,7 @@ MACROS = [(0, 0), (0, 1), (0, 2), (1, 0), (2, 0), (2, 1), (3, 0)]   # (macro set
 KVS = gen.kv_lists(2)
 KVS_CORE = [KVS.index([]), KVS.index(['k1 = 1']), KVS.index(['k1 = "a;b,c"', 'k2']), KVS.index(['k1:? = x', 'k2 = x'])]
 FILLCFG = [{}] + [{"*": f} for f in gen.FILLERS[1:]] + [{s: f} for s in gen.SITES for f in gen.FILLERS[1:]]
+BANG_GAPS = ["", " ", "\n", " /* c */ "]
 PREFIX = ['', 'fn f() {\n', '// é名\n\n', '\ufeff', '\ufefffn f() {\n']
 
 DIMS = [
@@ -25,6 +26,7 @@ DIMS = [
     ("before", gen.CTX_BEFORE, [0, 3, 8, 15], 0),
     ("after", gen.CTX_AFTER, [0, 1, 4], 0),
     ("prefix", PREFIX, [1], 1),
+    ("bang", BANG_GAPS, [0, 1], 0),
     ("eol", [False, True], [0, 1], 0),
     ("style", [False, True], [0, 1], 0),
 ]
@@ -37,7 +39,7 @@ def build_one(t):
     ms, mi = v["macro"]
     macro = gen.MACRO_SETS[ms][mi]
     st = gen.Stmt(macro=macro, qualified=v["path"], target=v["target"], kvs=v["kvs"], msg=v["msg"], trailing=v["trailing"],
-                  fill=v["fill"])
+                  fill=v["fill"], bang_gap=v["bang"])
     f = gen.File(v["style"])
     f.raw(v["prefix"]).raw(v["before"]).stmt(st).raw(v["after"])
     code, exp = f.build(crlf=v["eol"])
@@ -109,6 +111,8 @@ def classify(fail):
         tags.append("target-comment-like-or-blank")
     if v["macro"][0] == 3:
         tags.append("non-ascii-macro")
+    if v["bang"]:
+        tags.append("layout-before-bang")
     if v["after"] == ";" and fail["class"] == "count":
         tags.append("eof-no-newline")
     return "%s:%s:%s" % ("structured" if v["style"] else "unstructured", fail["class"], "+".join(tags) or "other")
